@@ -35,7 +35,8 @@ void dist_transform(BaseType* Df, BaseType* f, const int n, const int stride, do
         BaseType s;
         do {
             assert(k >= 0);
-            s = ( (f[q*stride] + q*q) - (f[v[k]*stride] + v[k]*v[k])) / 2./ (q-v[k]);
+            // the squares are taken in BaseType (double for distance()): q*q overflows int for q > 46340
+            s = ( (f[q*stride] + square(BaseType(q))) - (f[v[k]*stride] + square(BaseType(v[k])))) / 2./ (q-v[k]);
             if (s > z[k]) break;
             --k;
         } while (true);
@@ -47,7 +48,7 @@ void dist_transform(BaseType* Df, BaseType* f, const int n, const int stride, do
     k = 0;
     for (int q = 0; q != n; ++q) {
         while (z[k+1] < q) ++k;
-        Df[q] = square(q-v[k]) + f[v[k]*stride];
+        Df[q] = square(BaseType(q-v[k])) + f[v[k]*stride];
         if (orig) ot[q] = orig[v[k]*ostride];
     }
     for (int q = 0; q != n; ++q) {
